@@ -236,7 +236,11 @@ def run():
                     d["n"] += 1
                     d["cls"].add("WeightedBipartiteMatcher")
     chk.extra["scripted_matcher_histories"] = n_match
-    _matcher.check(chk, t, rng("c04-matcher"), mixed)
+    # the two L2 bindings (model checking + trace validation, all in TLC sub-processes) run side by side
+    from concurrent.futures import ThreadPoolExecutor
+    from props import _mset
+    l2pool = ThreadPoolExecutor(max_workers=2)
+    l2jobs = [l2pool.submit(_matcher.check, chk, t, rng("c04-matcher"), mixed), l2pool.submit(_mset.check, chk, t, rng("c04-mset"), mixed)]
     # the multiset edit over scripted elements (L2 model: spec/MultiSet.tla, bound by MultiSetTrace.tla)
     from props import _mset
     n_mset = 0
@@ -266,7 +270,9 @@ def run():
                     d["cls"].add("MultiSetEdit")
     chk.extra["scripted_multiset_histories"] = n_mset
     chk.extra["scripted_multiset_sum_of_parts_disagreements"] = parts_bad
-    _mset.check(chk, t, rng("c04-mset"), mixed)
+    for j in l2jobs:
+        j.result()
+    l2pool.shutdown()
     items = list(distinct.values())
     total_objects = sum(d["n"] for d in items)
     chk.extra["objects_observed"] = total_objects
@@ -301,6 +307,8 @@ def run():
                 raise MachineryError("object history rejected by machinery clause %s" % v["clause"])
             cls = sorted(d["cls"])[0]
             sig = {"clause": v["clause"], "class": cls, "kind": d["case"][0] if isinstance(d["case"][0], str) else "?"}
+            if sig["kind"] == "msetdup":
+                sig["collide"] = corpus.msetdup_collide(tuple(d["case"]), 4)
             msg = "%s object (%d occurrence(s)) breaks clause '%s' at event %d of its history %s; mode=%s; case %s" % (
                 "/".join(sorted(d["cls"])), d["n"], v["clause"], v["step"], json.dumps(d["sub"]["ev"])[:400],
                 "active" if d["active"] else "passive", json.dumps(d["case"])[:300])
